@@ -196,6 +196,14 @@ Proof.
     inversion H; subst rg'. unfold reg_set_next. cbn [reg_fwd_timeout reg_callees]. exact (OK _ _ Hr).
 Qed.
 
+Lemma call_abort_fk : forall lk d caller req opts proc oracle,
+    dealer_wf lk d -> fk d (call_abort_dealer lk d caller req opts proc oracle).
+Proof.
+  intros lk d caller req opts proc oracle WF.
+  destruct (call_abort_dealer_shape lk d caller req opts proc oracle) as [->|(r & next & Hm & ->)]; [apply fk_refl|].
+  apply call_d0_fk. apply (best_match_sound lk d WF) in Hm. destruct Hm as [Hr _]. exact Hr.
+Qed.
+
 Lemma call_fk : forall cfg lk now d caller req opts proc args kw oracle,
     dealer_wf lk d ->
     match call cfg lk now d caller req opts proc args kw oracle with
@@ -330,7 +338,9 @@ Proof.
     pose proof (call_fk (r_cfg r) (lookup r) (r_now r) (r_dealer r) s req opts proc args kw oracle Wd) as CF.
     destruct (call _ _ _ _ _ _ _ _ _ _ _) as [d o0|o0|d callee' o0].
     + exact CF.
-    + specialize (Lv r Same). destruct (leave r (s_id s)) as [r1 o1]. exact Lv.
+    + cbv zeta. specialize (Lv (r_set_dealer r (call_abort_dealer (lookup r) (r_dealer r) s req opts proc oracle))
+                       (call_abort_fk (lookup r) (r_dealer r) s req opts proc oracle Wd)).
+      destruct (leave _ (s_id s)) as [r1 o1]. exact Lv.
     + pose proof (run_meta_invocation_rfk (update_session (r_set_dealer r d) callee') o0 oracle) as R.
       unfold rfk in *. eapply fk_trans; [|exact R].
       destruct (update_session_frame (r_set_dealer r d) callee') as (_ & _ & _ & -> & _). exact CF.
